@@ -6,7 +6,7 @@ from vf.harness import ProcHarness
 ID = "C42"
 PROP_MODULE = "SquidModel.Properties.C42"
 MODEL = "c42"
-GEN = []
+GEN = ["ip_acl"]
 RULE = ("a <values> <probes>: the value list (all/ipv4/ipv6, IPv4 and IPv6 addresses, CIDR networks, dotted netmasks, ranges, ranges "
         "with a mask) is rendered as squid.conf text, parsed by the real ACLIP::parse through ConfigParser (parseGlobal, "
         "acl_ip_data::FactoryParse, DecodeMask, Acl::SplayInserter<acl_ip_data*>::Merge into the Splay tree) and ACLIP::match is asked "
@@ -32,9 +32,27 @@ ASSUMPTIONS = ["values are canonical numeric text (dotted quads without leading 
                "compared with the model only, not judged by the oracle",
                "the five legacy spellings of 'everything' that ACLIP::parseGlobal documents (0.0.0.0/0 ...) are judged as 'all'"]
 MANIFEST = {
-    "text": "partial: see notes/built/C42.md",
-    "note": "",
-    "technique": "Lean 4 proof + ASan/UBSan differential run with exhaustive small scopes",
+    "text": "partial: for every list (any length, order, duplicates, nesting, partial overlaps, both families) of all/ipv4/ipv6 and "
+            "regular numeric values (address, CIDR network or contiguous dotted netmask, a-b range, a-b/m; proper mask other than /0, "
+            "range not reversed) whose end points are tame (0.0.0.0 as a first/last address does not meet an address in "
+            "::1..::fffe:ffff:ffff, 255.255.255.255 as a first address does not meet a last address above it), ACLIP::parse ends "
+            "normally and after any earlier lookups ACLIP::match(x) is true exactly when x is in the union of the listed sets, for "
+            "every probe that does not itself hit those special cases - theorem match_iff_union_partial, no size bound; corollaries: "
+            "lists without 0.0.0.0/255.255.255.255 end points (match_iff_union_plain), IPv4-syntax lists for every probe "
+            "(match_iff_union_ipv4_lists), order irrelevance, all/ipv4/ipv6 match their families for any list that parses, lookups "
+            "never change the stored sequence, FactoryParse masks host bits away (the no-host-bits proviso is not needed). "
+            "Excluded and refuted on the real code (counterexample theorems + known findings): the Ip::Address operator special cases "
+            "(acl x dst ::1 0.0.0.0 misses ::1; ::1-::5 matches 0.0.0.0; an IPv6 range matches 255.255.255.255), ::/0 matches only ::, "
+            "a range ending at ::ffff:0:0 is read as one address, a reversed range makes Merge free a value it could not remove "
+            "(heap-use-after-free)",
+    "note": "trusted: Lean kernel, the C++ harness (own self_destruct/debug sink, renders the squid.conf text), python oracle; "
+            "modelled not verified: pointer code of include/splay.h as an inductive tree (shared model of C41; tree shapes after parse "
+            "and after the lookups, logged events and verdicts are compared with the real code on every case), 16 address bytes as one "
+            "number, the byte loops of applyMask(cidr)/cidr() as shift/leading-ones count; not modelled: sscanf/getaddrinfo text "
+            "scanning, host names, ConfigParser tokenisation; three behaviour flags and the special address constants are regenerated "
+            "from the staged tree every run so that the model follows a tree carrying a candidate fix",
+    "technique": "Lean 4 proof (interval reading of stored values, splay in-order/monotone-search lemmas, Merge invariant, bit lemmas "
+                 "for prefix masks) + constants/behaviour-flag translator + ASan/UBSan differential run with exhaustive small scopes",
 }
 MAX_REPORT = 10
 MINIMISE_BUDGET = 200
@@ -61,6 +79,12 @@ def build_exe(stage):
                                  "../compat/.libs/libcompatsquid.a"])
     built["c42"] = exe
     return exe
+
+
+def dump_env():
+    env = dict(os.environ)
+    env.update({"LC_ALL": "C", "ASAN_OPTIONS": "detect_leaks=0"})
+    return env
 
 
 def build(stage):
@@ -555,7 +579,10 @@ def cases(rng, tier):
         if thorough:
             yield from small_scope(fam, base, 4, 1)
             yield from small_scope(fam, base, 4, 2)
-            yield from small_scope(fam, base, 3, 3)
+            if fam == 4:
+                yield from small_scope(fam, base, 3, 3)
+            else:
+                yield from small_scope(fam, base, 3, 3, rng, 20000)
         else:
             yield from small_scope(fam, base, 3, 1)
             yield from small_scope(fam, base, 3, 2)
@@ -621,4 +648,4 @@ def cases(rng, tier):
 
 
 def exhaustive(tier):
-    return True   # every ordered pair (thorough: over 4 bits, plus triples over 3 bits) of singles/blocks/ranges of an IPv4 and an IPv6 prefix
+    return True   # every ordered pair (thorough: over 4 bits, plus every IPv4 triple over 3 bits) of singles/blocks/ranges of an IPv4 and an IPv6 prefix
